@@ -3,9 +3,11 @@
    encodeints/decodeints) and of the frame layout of xdrfile_xtc.c.  No proofs in this file.
 
    Two levels.  (1) The bit buffer of the C code -- bytes written so far, `lastbits`, `lastbyte` -- is
-   modelled literally ([cbuf], [c_encodebits], [c_decodebits]).  (2) The frame codec is written over
-   the abstraction "a list of bits, most significant first" ([put_bits]/[get_bits]); XtcProofs.v shows
-   that the C-level operations implement exactly this abstraction.
+   transcribed literally ([cbuf], [c_encodebits], [c_flush], [c_decodebits]).  (2) The frame codec is written
+   over the abstraction "a list of bits, most significant first" ([bits_of]/[get_bits]); XtcBitsProofs.v shows
+   that c_encodebits / c_flush implement exactly this abstraction.  c_decodebits is a transcription only: it
+   is not used by the frame decoder below and its refinement is not proved (the frame decoder is validated
+   by reading the files mdtraj writes).
    The multi-byte arithmetic of encodeints/decodeints/sizeofints (bytes[32] with carries) is modelled by
    arithmetic on Z; sizes are < 2^24 on this path (checked by the caller in the C code), so no 32-bit
    carry overflows.  `tmpsum` wraps at 32 bits as in the compiled code.  Out-of-bounds reads of magicints[]
@@ -218,10 +220,17 @@ Definition tmin (a b : triple) : triple :=
 Definition tmax (a b : triple) : triple :=
   let '(a0, a1, a2) := a in let '(b0, b1, b2) := b in (Z.max a0 b0, Z.max a1 b1, Z.max a2 b2).
 
+(* a C int: values beyond 2^31 wrap (undefined behaviour in C; two's complement wrap-around is what the
+   compiled code does) *)
+Definition wrap32 (x : Z) : Z :=
+  let y := Z.land x 4294967295 in if y <? 2147483648 then y else y - 4294967296.
+
+(* diff = abs(..)+abs(..)+abs(..) is an int: for atoms more than 2^31/1000 nm apart (L1) it wraps, which only
+   changes the starting smallidx *)
 Fixpoint mindiff_aux (prev : triple) (cs : list triple) (m : Z) : Z :=
   match cs with
   | [] => m
-  | c :: r => mindiff_aux c r (Z.min m (l1 (tsub prev c)))
+  | c :: r => mindiff_aux c r (Z.min m (wrap32 (l1 (tsub prev c))))
   end.
 Definition mindiff (cs : list triple) : Z :=
   match cs with [] => int_max | c :: r => mindiff_aux c r int_max end.
@@ -250,9 +259,6 @@ Definition put_abs (f : absfmt) (c : triple) : list bool :=
        | _ => []
        end
   else encodeints (af_bitsize f) (af_sizes f) [t0; t1; t2].
-
-Definition wrap32 (x : Z) : Z :=
-  let y := Z.land x 4294967295 in if y <? 2147483648 then y else y - 4294967296.
 
 (* the inner while (is_small && run < 8*3) loop: consumes atoms while they stay within smallnum of the
    previous one; returns the deltas (+smallnum), the remaining atoms, the last atom, is_smaller *)
